@@ -318,10 +318,6 @@ func (o *oracle) judge(c *mon.Case, what string, b []byte, dv *decVariant, pt []
 	}
 	c.Detail("ciphertext", b)
 	c.Detail("got", pt)
-	if id := knownAccept(o.kp, b, pt); id != "" {
-		c.Known(id, "accept", "%s: %s returned a %d-byte plaintext for a ciphertext whose C1 is the point at infinity (x1 = y1 = 0)", what, dv.name, len(pt))
-		return true
-	}
 	c.Fail("accept", "%s: %s returned a %d-byte plaintext (%x) for a byte string that the reference decryption refuses under every layout", what, dv.name, len(pt), clip(pt))
 	return true
 }
@@ -344,8 +340,8 @@ func clip(b []byte) []byte {
 	return b
 }
 
-// callDec is c.Call for decryption-side entry points; panics at sites that are
-// already reported are routed to their known-finding ids.
+// callDec is c.Call for decryption-side entry points: a panic is a violation and the
+// input that caused it is attached to the record.
 func callDec(c *mon.Case, kp *keyPair, what string, in []byte, f func()) bool {
 	c.Event("calls", 1)
 	p := mon.Try(f)
@@ -354,10 +350,6 @@ func callDec(c *mon.Case, kp *keyPair, what string, in []byte, f func()) bool {
 	}
 	c.Detail("input", in)
 	c.Detail("stack", clipS(p.Stack, 3000))
-	if id := knownPanic(kp, in, p); id != "" {
-		c.Known(id, "panic", "%s: panic: %v", what, p.Value)
-		return false
-	}
 	c.Fail("panic", "%s: panic: %v", what, p.Value)
 	return false
 }
@@ -368,9 +360,6 @@ func clipS(s string, n int) string {
 	}
 	return s
 }
-
-// knownPanic is filled in by known.go (matchers for reported panic sites).
-var knownPanic = func(kp *keyPair, in []byte, p *mon.PanicInfo) string { return "" }
 
 // ------------------------------------------------------------------- utilities
 
